@@ -186,3 +186,15 @@ Example C05_source_va_read_runs_truncated :
   c05_show (callC prog_env 2000 prog_sbdf_va_read [tok; tok] [] (-1) [1;10; 2;0;0;0; 9;0;0;0; 2;97;98; 5;99] []) =
   (Some (VInt SBDF_ERROR_IO), Some VNull, Some (VHeap [None; None; None]), [3; 0; 0; 0; 97; 98; 0; 6; 0; 0; 0; 99; 205; 205; 205; 205; 0], Some (VBytes [])).
 Proof. vm_compute. reflexivity. Qed.
+
+(* the source's sbdf_cs_read against the L1 model (Slice.v): whenever the call succeeds - under ANY allocation schedule - on a
+   stream the model's cs_read accepts (no bit arrays: that branch of the value-array reader is not translated), the stream
+   stands exactly where the model leaves it.  (The full statement about the call - every failure releases everything, every
+   success is releasable - is C12_source_cs_read_full.) *)
+From Sbdf Require Import ImpFactsTsRead Slice.
+Theorem C05_source_cs_read_position_is_the_models : forall rf rp fo po k sx m h c sM, Forall byte sx -> cs_nobit sx -> Slice.cs_read false None sx = Ok (c, sM) ->
+  exists f0, forall f, (f0 <= f)%nat -> exists st fin,
+    callC prog_env f prog_sbdf_cs_read [VPtr rf fo; VPtr rp po] m k sx h = OReturn (VInt st) fin /\
+    (st = SBDF_OK -> Imp.lookup strm_var (vars fin) = Some (VBytes sM)).
+Proof. exact cs_read_position_is_the_models. Qed.
+Print Assumptions C05_source_cs_read_position_is_the_models.
